@@ -162,6 +162,7 @@ class Elab:
         self.steps = 0
         self.hints = {}
         self.callname = []
+        self.calltrace = []     # (function name, args, kwargs, selfobj) of every inlined call
 
     # ------------------------------------------------------------------------------------------
     # module environments
@@ -1511,6 +1512,7 @@ class Elab:
         fenv = Env(f.env)
         if f.clsv is not None:
             fenv.set("$class", f.clsv)
+        self.calltrace.append((f.name, list(args), dict(kwargs), f.selfobj))
         saved_file = self.file
         if f.module is not None:
             self.file = f.module.rel()
